@@ -11,7 +11,10 @@ CHECKS = {
          "offered to every decoder and every value of the stated ranges is round-tripped; every content length 0..300 (1100) and "
          "65535/65536 is offered with the canonical length octets, every non-minimal form of 1..4 length octets and the indefinite "
          "octet, top-level and nested; one DER object of each of 12 classes is driven through every history of 2..3 decode() calls "
-         "(accepted and refused encodings), each successful decode equal to a fresh object's; the oracle is an independent strict "
+         "(accepted and refused encodings), each successful decode equal to a fresh object's, and DerSequence through every sequence of "
+         "2 (3) decodes with keyword constraints (nr_elements, only_ints_expected, strict); INTEGER and OBJECT IDENTIFIER contents "
+         "of 1..4 octets over a 7-symbol alphabet (strict minimality of both signs, truncated arcs); certificate shapes with 0..11 "
+         "TBSCertificate members; every PEM DEK-Info algorithm; the oracle is an independent strict "
          "TLV/padding/PEM codec. Exhaustive within those bounds, which is where DER/padding/PEM faults live (length forms, "
          "boundaries), and far beyond the handful of malformed inputs in the test-suite.",
          "Trusted: the 60-line reference TLV classifier and padding predicates in mc/props/c13.py; values outside the enumerated "
@@ -189,7 +192,8 @@ CHECKS = {
          "all residues modulo every prime < 200 for the modular square root; primality tests on every n < 2^13 (2^17) with Miller-Rabin bases dictated through "
          "the entropy tape, and on Carmichael/Chernick numbers, strong and Lucas pseudoprimes, prime powers, close-prime products; generated primes of every "
          "size 160..192 etc.; primality repeated in child processes under the other two back-ends. Square roots of k^2-1, k^2, k^2+1 for k of every bit "
-         "length up to 1100; the result of every out-of-place operation is updated in place and must leave all operands unchanged (no shared state).",
+         "length up to 1100; the result of every out-of-place operation is updated in place and must leave all operands unchanged (no shared state); "
+         "from_bytes is called twice from one bytes/bytearray/memoryview carrier which must read the same afterwards.",
          "Trusted: Python int arithmetic, mc/ref/nt.py. Result types are C16's matter.", "DESIGN.md 3/C14"),
  "C18": ("exploration",
          "complete enumeration of the entropy-tape tree (every byte value at every draw, exact rational weights) up to a stated rejection depth; boundary tapes at cryptographic sizes",
